@@ -15,6 +15,7 @@ package syncer
 
 import (
 	"context"
+	"encoding/binary"
 	"encoding/json"
 	"fmt"
 	"os"
@@ -33,6 +34,7 @@ import (
 	"github.com/mgtv-tech/redis-GunYu/pkg/store"
 	usync "github.com/mgtv-tech/redis-GunYu/pkg/sync"
 	"github.com/mgtv-tech/redis-GunYu/verifshim/mc"
+	"github.com/mgtv-tech/redis-GunYu/verifshim/ref"
 	"github.com/mgtv-tech/redis-GunYu/verifshim/vpoll"
 )
 
@@ -40,19 +42,47 @@ func init() { verifChecks["C05"] = runC05 }
 
 const (
 	c05Base     = int64(96) // first offset; 96+L.. crosses the 2->3 digit boundary of file names
-	c05MaxRd    = 2         // readers a sequence may hold open
+	c05MaxRd    = 3         // reader slots (a configuration uses 2 or 3 of them)
 	c05Horizon  = 40 // poll periods (ticks) a reader gets to deliver bytes that are present
 	c05Settle   = 3  // poll periods after every event
 	c05Sweeps   = 6  // rounds of "every parked poller polls once" an operation gets before it counts as dead-locked
 )
 
 type c05Cfg struct {
-	Backend string `json:"backend"` // "disk" | "mem"
-	L       int64  `json:"L"`       // data bytes per segment before rotation
-	Max     int64  `json:"max"`     // MaxSize of the cache
+	Backend string `json:"backend"`         // "disk" | "mem"
+	L       int64  `json:"L"`               // data bytes per segment before rotation
+	Max     int64  `json:"max"`             // MaxSize of the cache
+	Crc     bool   `json:"crc,omitempty"`   // config Channel.VerifyCrc (disk: readers verify sealed segments / snapshots)
+	Slots   int    `json:"slots,omitempty"` // readers a sequence may hold open (0 = 2)
+	Alpha   string `json:"alpha,omitempty"` // "" = full alphabet | "r3" = reduced alphabet of the three-reader configuration
 }
 
-func (c c05Cfg) String() string { return fmt.Sprintf("%s,L=%d,max=%d", c.Backend, c.L, c.Max) }
+func (c c05Cfg) String() string {
+	s := fmt.Sprintf("%s,L=%d,max=%d", c.Backend, c.L, c.Max)
+	if c.Crc {
+		s += ",crc"
+	}
+	if c.Slots > 0 {
+		s += fmt.Sprintf(",slots=%d", c.Slots)
+	}
+	if c.Alpha != "" {
+		s += ",alpha=" + c.Alpha
+	}
+	return s
+}
+
+func (c c05Cfg) slots() int {
+	if c.Slots > 0 && c.Slots <= c05MaxRd {
+		return c.Slots
+	}
+	return 2
+}
+
+// c05R3 is the alphabet of the three-reader configuration: enough to put three started
+// (or unstarted) readers on one segment and then reset, switch id, replace the writer or
+// append/rotate.
+var c05R3 = map[string]bool{"aof": true, "aofD": true, "fb": true, "fd": true, "eof": true, "OL": true, "OR": true, "oL": true, "oR": true,
+	"s0": true, "c0": true, "c1": true, "rdbF": true, "rdbF~": true, "del": true, "del~": true, "sidN": true, "reo": true}
 func (c c05Cfg) large() bool    { return c.Max >= 1<<20 }
 
 type c05Scenario struct {
@@ -68,6 +98,16 @@ func c05Bytes(hist, kind int, from, n int64) []byte {
 	b := make([]byte, n)
 	for i := int64(0); i < n; i++ {
 		b[i] = c05Byte(hist, kind, from+i)
+	}
+	return b
+}
+
+// c05Snap: the snapshot of a history: size-8 pattern bytes followed by their CRC-64/Jones
+// (little endian) - the trailer a verifying snapshot reader (Channel.VerifyCrc) checks.
+func c05SnapBytes(hist int, size int64) []byte {
+	b := c05Bytes(hist, 1, 0, size)
+	if size > 8 {
+		binary.LittleEndian.PutUint64(b[size-8:], ref.RDBCRC64(0, b[:size-8]))
 	}
 	return b
 }
@@ -107,6 +147,8 @@ type c05Reader struct {
 	probe   bool
 	// oracle state
 	invalid    bool  // opened before a history-changing reset
+	rescanned  bool  // a SetRunId (directory re-scan) happened while it was open
+	mustEnd    bool  // invalidated by a reset (new snapshot, DelRunId): once started it has to end or fail
 	limit      int64 // when invalid: first offset/index it may NOT deliver
 	mustFollow bool
 	checked    int
@@ -617,6 +659,9 @@ func (e *c05Env) checkReaders() {
 		for i := r.checked; i < len(got); i++ {
 			off := r.pos + int64(i)
 			want := c05Byte(r.hist, kind, off)
+			if !r.aof && r.size > 8 && off >= r.size-8 && off < r.size {
+				want = c05SnapBytes(r.hist, r.size)[off]
+			}
 			d := map[string]interface{}{"reader": r.label, "reader_start": r.pos, "at": off, "got": got[i], "want": want, "delivered": len(got), "reader_hist": r.hist, "now_hist": e.hist}
 			if got[i] != want {
 				cls := "wrong-byte"
@@ -698,6 +743,35 @@ func (e *c05Env) expectCaughtUp(ctx string) {
 	e.checkReaders()
 }
 
+// expectInvalidatedEnded: "an invalidated reader ends or fails". Every started reader that
+// was open when the cache was reset (new snapshot, DelRunId) must have ended - its
+// consumer sees EOF or an error - within the horizon.
+func (e *c05Env) expectInvalidatedEnded(ctx string) {
+	if e.viol != nil {
+		return
+	}
+	for _, rd := range e.allRd {
+		rd := rd
+		if !rd.mustEnd || !rd.started {
+			continue
+		}
+		if e.waitUntil(func() bool { _, ended := rd.snapshot(); return ended }) {
+			continue
+		}
+		n, _ := rd.snapshot()
+		cls := "stale-reader-survives-reset"
+		// signature context: was the reader's registration possibly lost by a directory
+		// re-scan (SetRunId) before the reset, or was the reset itself incomplete?
+		e.lastOp = "direct"
+		if rd.rescanned {
+			e.lastOp = "after-rescan"
+		}
+		e.fail("a reader that was open when the cache was reset neither ends nor fails: it keeps polling (and would follow whatever segment appears under the next name)", cls,
+			map[string]interface{}{"reader": rd.label, "reader_start": rd.pos, "delivered": n, "aof": rd.aof, "when": ctx, "open_readers": len(e.allRd)})
+		return
+	}
+}
+
 // invalidate marks every open reader as belonging to a discarded history.
 func (e *c05Env) invalidate() {
 	for _, r := range e.allRd {
@@ -705,6 +779,7 @@ func (e *c05Env) invalidate() {
 			continue
 		}
 		r.invalid = true
+		r.mustEnd = true
 		if r.aof {
 			r.limit = e.right
 			if e.right < 0 {
@@ -789,11 +864,16 @@ func (e *c05Env) writerEnded() {
 // operations
 
 func (e *c05Env) opSetRunID(id string) {
-	if err := e.ch.SetRunId(id); err != nil {
+	var err error
+	e.call(false, func() { err = e.ch.SetRunId(id) }) // may end readers of a replaced index
+	if err != nil {
 		e.fail("SetRunId failed", "op-error", map[string]interface{}{"error": err.Error()})
 		return
 	}
 	e.runID, e.lastID = id, id
+	for _, r := range e.allRd {
+		r.rescanned = true
+	}
 	e.settle()
 }
 
@@ -879,7 +959,7 @@ func (e *c05Env) feed(n int64) {
 		if n > rem {
 			n = rem
 		}
-		w.g.Release(c05Bytes(e.hist, 1, e.snap.written, n))
+		w.g.Release(c05SnapBytes(e.hist, e.snap.size)[e.snap.written : e.snap.written+n])
 		e.snap.written += n
 		if e.snap.written == e.snap.size {
 			e.snap.complete = true
@@ -1187,7 +1267,7 @@ func (e *c05Env) apply(op string) {
 		start := op[0] == 'O'
 		op = "o" + op[1:]
 		slot := -1
-		for i := range e.readers {
+		for i := 0; i < e.cfg.slots(); i++ {
 			if e.readers[i] == nil {
 				slot = i
 				break
@@ -1279,6 +1359,7 @@ func (e *c05Env) apply(op string) {
 	e.checkReaders()
 	e.checkView()
 	e.expectCaughtUp("after " + op)
+	e.expectInvalidatedEnded("after " + op)
 }
 
 // enabled lists the operations that make sense in the current state.
@@ -1286,6 +1367,9 @@ func (e *c05Env) enabled(tier string) ([]string, map[string]string) {
 	var ops []string
 	risky := map[string]string{} // op -> shape of the dead-lock it may run into ("rdb" | "poll")
 	if e.runID == "" {
+		if e.cfg.Alpha == "r3" {
+			return []string{"sidN"}, risky
+		}
 		return []string{"sidS", "sidN"}, risky
 	}
 	if e.disk() {
@@ -1323,7 +1407,7 @@ func (e *c05Env) enabled(tier string) ([]string, map[string]string) {
 		ops = append(ops, "eof", "wcl")
 	}
 	free := false
-	for i := range e.readers {
+	for i := 0; i < e.cfg.slots(); i++ {
 		if e.readers[i] == nil {
 			free = true
 		}
@@ -1350,6 +1434,15 @@ func (e *c05Env) enabled(tier string) ([]string, map[string]string) {
 	// "sidS" (SetRunId of the current id while a writer is live) is not part of the
 	// alphabet: every caller selects the run id before it creates writers.
 	ops = append(ops, "sidSq", "sidN", "del", "reo")
+	if e.cfg.Alpha == "r3" {
+		kept := ops[:0]
+		for _, op := range ops {
+			if c05R3[op] {
+				kept = append(kept, op)
+			}
+		}
+		ops = kept
+	}
 	return ops, risky
 }
 
@@ -1460,6 +1553,7 @@ func (e *c05Env) probes() {
 	}
 	e.settle()
 	e.expectCaughtUp("probe:start-open-readers")
+	e.expectInvalidatedEnded("probe:start-open-readers")
 	if e.viol != nil {
 		return
 	}
@@ -1533,8 +1627,8 @@ func (e *c05Env) probes() {
 	// 4. a complete snapshot reader must end after exactly size bytes
 	for _, r := range e.allRd {
 		r := r
-		if r.aof || r.invalid || !r.started || e.snap == nil || !e.snap.complete || r.hist != e.hist {
-			continue
+		if r.aof || r.invalid || !r.mustFollow || !r.started || e.snap == nil || !e.snap.complete || r.hist != e.hist {
+			continue // (a reader that was open across a replication-id switch may have been ended by it)
 		}
 		ok := e.waitUntil(func() bool { n, ended := r.snapshot(); return int64(n) == r.size && ended })
 		if !ok {
@@ -1635,6 +1729,7 @@ func c05Exec(t *testing.T, scn c05Scenario, tier string) c05Outcome {
 	if config.GetSyncerConfig().Channel == nil {
 		config.GetSyncerConfig().Channel = &config.ChannelConfig{}
 	}
+	config.GetSyncerConfig().Channel.VerifyCrc = scn.Cfg.Crc
 	// The bubble runs on its own goroutine so that a wedged execution (dead-lock
 	// inside the cache) can be abandoned: its goroutines stay blocked for ever.
 	resCh := make(chan c05Outcome, 2)
@@ -1709,6 +1804,17 @@ func c05Configs(tier string) []c05Cfg {
 			out = append(out, c05Cfg{Backend: be, L: L, Max: 2*L + 2})
 		}
 	}
+	// checksum verification (config Channel.VerifyCrc) only changes the disk readers
+	out = append(out, c05Cfg{Backend: "disk", L: 8, Max: 1 << 20, Crc: true})
+	if tier == "thorough" {
+		out = append(out, c05Cfg{Backend: "disk", L: 8, Max: 18, Crc: true}, c05Cfg{Backend: "disk", L: 16, Max: 1 << 20, Crc: true})
+	}
+	// three reader slots, reduced alphabet, one level deeper
+	out = append(out, c05Cfg{Backend: "disk", L: 8, Max: 1 << 20, Slots: 3, Alpha: "r3"})
+	out = append(out, c05Cfg{Backend: "mem", L: 8, Max: 1 << 20, Slots: 3, Alpha: "r3"})
+	if tier == "thorough" {
+		out = append(out, c05Cfg{Backend: "disk", L: 8, Max: 1 << 20, Slots: 3, Alpha: "r3", Crc: true})
+	}
 	return out
 }
 
@@ -1748,8 +1854,11 @@ func runC05(t *testing.T, rep *mc.Reporter) {
 	baseDepth := depth
 	for _, cfg := range c05Configs(tier) {
 		depth := baseDepth
-		if tier != "thorough" && cfg.Backend == "disk" && cfg.large() && os.Getenv("VERIF_C05_DEPTH") == "" {
+		if tier != "thorough" && cfg.Backend == "disk" && cfg.large() && !cfg.Crc && cfg.Alpha == "" && os.Getenv("VERIF_C05_DEPTH") == "" {
 			depth = baseDepth + 1 // quick: one configuration is searched one level deeper
+		}
+		if cfg.Alpha == "r3" {
+			depth = baseDepth + 1 // reduced alphabet: three readers + reset needs five operations
 		}
 		seen := map[string]bool{}
 		var states, transitions int64
